@@ -265,6 +265,10 @@ pub fn run(tier: Tier) -> Report {
         scs.push(plain("(".repeat(d)));
         scs.push(plain(format!("proc main() {{ {} }}", "if (1) ; else ".repeat(d))));
     }
+    // documents that crashed earlier versions (kept so that the quick tier guards the repairs)
+    for t in ["proc printi", "proc int printi", "proc a int array", "proc int '\u{20ac}'", "type A = array [2] of int; proc main() { var v: array [2] of int; v[0] := 1; }", "\na"] {
+        scs.push(plain(t.to_string()));
+    }
     run_family("nesting-ladders", scs, false, &mut fails);
     // edit histories: requests after one and two didChange notifications (incremental tree)
     let mut scs = vec![];
